@@ -5,11 +5,13 @@ Line protocol for K_C18 (one input line → one output line).
   `new <request_timeout> <wishlist_request_timeout> <store 0|1> <initial> <items> [<removal listeners>]`   → `ok`
   `search net|room|user`      `wlmsg <n>`      `wlclose`      `remove <tk>`      `reply <tk>`
   `tcancel <tk>`              `tresched <tk> <n>`             `jump <d>`         `sleep <d>`
-  `stop`                      `resume <tk>`
-      → `<events> | live=<tickets> armed=<tickets> res=<tk:n,…> pend=<k> [rep=<tk:told,…>] now=<t>`
+  `stop`                      `resume <tk>`       `tick [<n>]`    `gate 0|1`
+  `sendok <tk>`               `sendfail <tk>`     `ccancel <tk>`
+      → `<events> | live=<tickets> armed=<tickets> res=<tk:n,…> pend=<k> [rep=<tk:told,…>] setup=<tickets> now=<t>`
   events (sorted): `<t>:S:<tk>` sent, `<t>:X:<tk>` removed, `<t>:R:<tk>` result, `<t>:E:<tk>` KeyError in a timer
   task, `<t>:T<i>:<tk>` removal listener `i` called, `<t>:A<i>:<tk>` report aborted after `i` listeners,
-  `KeyError` raised to the caller, `noreq` / `notimer` / `noemit`, `clobber`.
+  `KeyError` raised to the caller, `noreq` / `notimer` / `noemit` / `nosetup`, `clobber`.
+`setup` lists the tickets of the set-ups whose send is still blocked.
 `sleep d` is executed as `Search.sleepOps d`, `stop` as `Search.stopOps`, with the same `step` / `nstep` the theorems
 are about; `resume tk` = `NOp.resume` of the report for that ticket, then the loop runs (`settle`).
 `pend` counts the timer tasks that have not finished: the pending ones and those still reporting a removal.
@@ -37,6 +39,7 @@ def obsStr : NObs → String
   | .base .callerErr => "KeyError"
   | .base .noReq => "noreq"
   | .base .noTimer => "notimer"
+  | .base .noSetup => "nosetup"
   | .noEmission => "noemit"
   | .base (.clobber _ _) => "clobber"
 
@@ -67,7 +70,8 @@ def summary (ns : NState) (obs : List NObs) : String :=
   let rep := if ns.listeners = 0 then "" else
     " rep=" ++ ",".intercalate ((sortBy (fun (a b : Emission) => decide (a.ticket ≤ b.ticket)) ns.reporting).map
       (fun e => s!"{e.ticket}:{e.told}"))
-  s!"{" ".intercalate toks} | live={live} armed={armed} res={res} pend={s.tasks.length + ns.reporting.length}{rep} now={s.now}"
+  let setup := natsStr ((s.pending.filter (·.outcome.isNone)).map (·.ticket))
+  s!"{" ".intercalate toks} | live={live} armed={armed} res={res} pend={s.tasks.length + ns.reporting.length}{rep} setup={setup} now={s.now}"
 
 def parseInt (x : String) : Option Int :=
   if x.startsWith "-" then (x.drop 1).toNat?.map (fun n => - (n : Int)) else x.toNat?.map (fun n => (n : Int))
@@ -90,6 +94,13 @@ def ops (s : NState) (line : String) : Option (List NOp) :=
   | ["jump", d] => d.toNat?.map fun d => [.base (.jump d)]
   | ["sleep", d] => d.toNat?.map fun d => (sleepOps d).map .base
   | ["stop"] => some ((stopOps s.base).map .base)
+  | ["tick"] => some [.base .tick]
+  | ["tick", n] => n.toNat?.map fun n => List.replicate n (.base .tick)
+  | ["gate", "0"] => some [.base (.gate false)]
+  | ["gate", "1"] => some [.base (.gate true)]
+  | ["sendok", t] => t.toNat?.map fun t => [.base (.sendDone t true)]
+  | ["sendfail", t] => t.toNat?.map fun t => [.base (.sendDone t false)]
+  | ["ccancel", t] => t.toNat?.map fun t => [.base (.cancelCall t)]
   | ["resume", t] => t.toNat?.map fun t =>
     -- the report for the request announced with ticket `t`; an unknown one resumes nothing (`noemit`)
     [.resume (((s.reporting.find? (·.ticket = t)).map (·.rid)).getD 0), .base .settle]
